@@ -35,8 +35,8 @@ class WrongType(Exception):
     pass
 
 
-class WatchError(Exception):
-    pass
+from redis.exceptions import ConnectionError as RedisConnectionError  # noqa: E402  (what redis-py raises; a subclass of neither OSError nor the builtin)
+from redis.exceptions import WatchError  # noqa: E402  (what redis-py raises when a watched key changed before EXEC)
 
 
 class Server:
@@ -397,16 +397,14 @@ class Client:
 
     async def _lat(self, after: bool = False) -> None:
         if self.dead:
-            raise ConnectionError("client is dead")
+            raise RedisConnectionError("Connection lost (client is dead)")
         if not after:
             self.nrt += 1
             if self.nrt in self.fail_at:
-                from redis.exceptions import ConnectionError as RedisConnectionError
-
                 raise RedisConnectionError("injected transient connection error")
         await asyncio.sleep(self.lat())
         if self.dead:
-            raise ConnectionError("client is dead")
+            raise RedisConnectionError("Connection lost (client is dead)")
 
     def pipeline(self, transaction: bool = True, shard_hint: Any = None) -> Pipe:
         return Pipe(self, transaction)
